@@ -119,6 +119,9 @@ def check_C16(tier, seed):
     run_pipeline(res, binary, "ns-validation", gen_lines=gens.gen_ns_validation(rng, 2000 if tier == "quick" else 40000), nshards=4)
     run_pipeline(res, binary, "through-zones", gen_lines=gens.gen_nanos_zone(rng, 60 if tier == "quick" else 1500), nshards=4)
     res.notes["rule"] = "vectors: every count within R of 19 anchors (multiples of 1e9, i64/i128 ends of the seconds and of the count itself, date-time range ends); events: seeded i128 counts (log-uniform, anchors incl. the 2^31..2^64 word sizes of the count, zero crossings) through the three from_total_nanoseconds constructors; counts at the range ends through fixed-offset zones"
+    if tier != "quick":
+        # split / join laws for EVERY integer count (floor is forced by 0 <= r < 10^9; uniqueness, monotonicity, successor): TLAPS
+        res.notes["tlaps_unbounded_proofs"] = [C.run_tlapm("proofs/NanosSplit.tla")]
     os.remove(vec)
     return res.finish()
 
